@@ -489,7 +489,7 @@ Proof.
   assert (Hbase : inv k' /\ rto_inv k').
   { destruct (step_ok_full k o Hi Hop) as (k2 & x2 & Hs2 & Hi2 & _ & Hk).
     rewrite Hs2 in Hs. inversion Hs; subst k2 x2.
-    split; [exact Hi2|]. apply Hk; [|exact Hr]. destruct o; try exact I. exact Hcl. }
+    split; [exact Hi2|]. apply Hk; [|exact Hr]. destruct o; try exact I. destruct Hcl. }
   destruct Hbase as (Hi' & Hr'). split; [exact Hi'|]. split; [exact Hr'|].
   destruct o as [b|n|d reg nd now|full now|now|now|m|nd iv rs nc]; cbn [step] in Hs; cbn [cl_op_ok op_ok] in *.
   - destruct (send k b) as [[k1 r]|w] eqn:E; [|discriminate]. inversion Hs; subst k' x. cbn [o_dgrams].
